@@ -23,14 +23,24 @@ def pad_total(n, L):
     return 2 * ((n + L - 1) // 2 - 1) - n + L
 
 
+FORCE = [None]          # set by the covering cases: 'adopt' / 'deferred' (see impl_dwt._build)
+
+
 def modules(dims, m, J, filt, salt=None):
+    """the modules under test, built the way the harness builds every DWT module (impl_dwt._build): decoy instances with
+    other arguments, twins whose state is overwritten, and - for about one bank in three, or when FORCE says so - an
+    instance that took over its state from another one through load_state_dict"""
     if salt is None:
         salt = tuple(int(np.size(f)) for f in filt) + tuple(float(np.ravel(f)[0]) for f in filt)
     from pytorch_wavelets.dwt.transform1d import DWT1DForward, DWT1DInverse
     from pytorch_wavelets.dwt.transform2d import DWTForward, DWTInverse
+    from ..impl_dwt import _build
+    own = lambda: tuple(np.array(f, dtype=np.float64, copy=True) for f in filt)
     if dims == 1:
-        return DWT1DForward(J=J, wave=filt, mode=gen.lib_mode(m, 'f', dims, J, salt)), DWT1DInverse(wave=filt, mode=gen.lib_mode(m, 'i', dims, J, salt))
-    return DWTForward(J=J, wave=filt, mode=gen.lib_mode(m, 'f', dims, J, salt)), DWTInverse(wave=filt, mode=gen.lib_mode(m, 'i', dims, J, salt))
+        return (_build(DWT1DForward, own(), FORCE[0], J=J, mode=gen.lib_mode(m, 'f', dims, J, salt)),
+                _build(DWT1DInverse, own(), FORCE[0], mode=gen.lib_mode(m, 'i', dims, J, salt)))
+    return (_build(DWTForward, own(), FORCE[0], J=J, mode=gen.lib_mode(m, 'f', dims, J, salt)),
+            _build(DWTInverse, own(), FORCE[0], mode=gen.lib_mode(m, 'i', dims, J, salt)))
 
 
 def flat(ts):
@@ -44,7 +54,7 @@ def oracle_fwd_grad(ck, dims, m, J, filt, shape):
     fwd, _ = modules(dims, m, J, filt, tuple(shape))
     n_in = int(np.prod(shape))
     desc = '%dD forward-module gradient mode=%s J=%d L=%d shape=%s' % (dims, gen.MODE_NAME[m], J, L, tuple(shape))
-    replay = {'oracle': 'fwd_grad', 'dims': dims, 'm': m, 'J': J, 'filt': [arr_json(f) for f in filt], 'shape': list(shape), 'seed_note': 'cotangent drawn from the check PRNG'}
+    replay = {'oracle': 'fwd_grad', 'dims': dims, 'm': m, 'J': J, 'filt': [arr_json(f) for f in filt], 'shape': list(shape), 'seed_note': 'cotangent drawn from the check PRNG', 'force': FORCE[0]}
     try:
         with torch.no_grad():
             cols = []
@@ -102,7 +112,7 @@ def oracle_inv_grad(ck, dims, m, J, filt, size, mask):
         shapes = [(1, 1, nlh, nlw)] + [(1, 1, 3, a, b) for a, b in zip(hh, hw)]
         lo_sizes = hh + hw
     desc = '%dD inverse-module gradient mode=%s J=%d L=%d size=%s requires_grad mask=%s' % (dims, gen.MODE_NAME[m], J, L, size, bin(mask))
-    replay = {'oracle': 'inv_grad', 'dims': dims, 'm': m, 'J': J, 'filt': [arr_json(f) for f in filt], 'size': size, 'mask': mask}
+    replay = {'oracle': 'inv_grad', 'dims': dims, 'm': m, 'J': J, 'filt': [arr_json(f) for f in filt], 'size': size, 'mask': mask, 'force': FORCE[0]}
     ins = [T(gen.int_tensor(rng, s)) for s in shapes]
     for i, t in enumerate(ins):
         if (mask >> i) & 1:
@@ -168,6 +178,19 @@ def oracle(ck, extended):
     rt.guard(ck, oracle_fwd_grad, ck, 2, 2, 1, f4, (5, 7))
     rt.guard(ck, oracle_fwd_grad, ck, 2, 2, 1, (np.array([1., 2.]), np.array([2., -1.])), (3, 5))
     rt.guard(ck, oracle_fwd_grad, ck, 1, 2, 2, f4, (9,))
+    # covering cases: modules whose state was taken over from another instance (other filters of the same lengths, then
+    # load_state_dict and an exact dtype round trip; or the deferred meta-device construction): the backward pass must
+    # follow the CURRENT state in every mode
+    for force in ('adopt', 'deferred'):
+        FORCE[0] = force
+        try:
+            for m_ in (0, 2):
+                rt.guard(ck, oracle_fwd_grad, ck, 2, m_, 1, f4, (6, 8))
+                rt.guard(ck, oracle_fwd_grad, ck, 1, m_, 2, f4, (12,))
+                rt.guard(ck, oracle_inv_grad, ck, 2, m_, 1, f4, [6, 8], 3)
+                rt.guard(ck, oracle_inv_grad, ck, 1, m_, 1, f4, 8, 3)
+        finally:
+            FORCE[0] = None
     n = (70 if q else 500) * (3 if extended else 1)
     for it in range(n):
         L = 2 * rng.randint(1, 4 if q else 6); m = rng.choice(gen.MODES5); J = rng.randint(1, 2 if q else 3)    # wavelets have even length
@@ -198,6 +221,7 @@ def replay(ck, path):
         print('replay file names no failing input: %s' % d.get('broken_obligations'))
         return 1
     filt = tuple(arr_from(a) for a in f['filt'])
+    FORCE[0] = f.get('force')
     if f['oracle'] == 'fwd_grad':
         oracle_fwd_grad(ck, f['dims'], f['m'], f['J'], filt, tuple(f['shape']))
     else:
